@@ -12,6 +12,10 @@ reordering between commit and notification, any batching — interleaved with de
 Summary of strength:
 * `every_key_notified`, `suppressed_only_by_newer`, `event_kind_is_parity`,
   `filter_keeps_first_cl_per_key`, `no_stale_within_horizon`: full strength for the model.
+* both producers of candidate batches are instances of the quantified input: `match_changes`
+  (`filterChanges`) and `match_changes_from_db_version` after a chunked version was applied from the
+  buffer (`rereadBatch`; `reread_keys_nodup`, `reread_subset_of_complete`, `reread_eq_complete`,
+  `reread_none_when_not_impacted`).
 * `parity_is_fate`, `deleted_iff_row_absent`, `no_stale_partial`: need the horizon hypothesis
   `keptThroughout` (the key is never evicted from `cl_cache`), which `kept_of_few_candidates`
   discharges for runs with at most `cap` candidates.  The property's own last two sentences have no
@@ -51,6 +55,59 @@ theorem filter_keeps_first_cl_per_key (cs : List Change) (k : Key) :
 `every_key_notified` is what the code produces). -/
 theorem filter_keys_nodup (cs : List Change) : ((filterChanges cs).map (·.1)).Nodup :=
   filter_fold_nodup cs [] (by simp)
+
+/-! ### the second producer: a chunked remote version applied from the buffer -/
+
+/-- **The re-read producer is covered by every theorem below.** The theorems about the feed quantify
+over ALL candidate batches; the batch `match_changes_from_db_version` sends after
+`process_fully_buffered_changes` is one (pairwise distinct keys, the hypothesis of
+`every_key_notified`). -/
+theorem reread_keys_nodup (impacted : Bool) (live : List Change) (b : List Cand)
+    (h : rereadBatch impacted live = some b) : (b.map (·.1)).Nodup := by
+  unfold rereadBatch at h
+  split at h
+  · simp only [Option.some.injEq] at h; subst h; exact filter_keys_nodup live
+  · simp at h
+
+/-- **Re-read ⊆ complete.** `cs` is the version's change list as the origin broadcast it, `live` the
+entries of that version that are live when the buffered copy is applied (a sub-list: the changes
+that won the merge, in `seq` order; that the real re-read query returns exactly those is tied to the
+code by the correspondence).  Every candidate the re-read producer sends is a candidate the
+complete-changeset producer would send for the whole version, with the SAME causal length: applying
+a version from the buffer can notify fewer keys (those whose cells were overwritten meanwhile), never
+other keys and never another causal length. -/
+theorem reread_subset_of_complete (impacted : Bool) (cs live : List Change) (b : List Cand)
+    (hsub : live.Sublist cs) (hu : UniformCl cs) (h : rereadBatch impacted live = some b)
+    (k : Key) (c : Nat) (hk : lookup k b = some c) : lookup k (filterChanges cs) = some c := by
+  unfold rereadBatch at h
+  split at h
+  · simp only [Option.some.injEq] at h; subst h
+    rw [filter_keeps_first_cl_per_key] at hk ⊢
+    cases hf : live.find? (fun c => c.mine && c.key == k) with
+    | none => rw [hf] at hk; simp at hk
+    | some x =>
+      rw [hf] at hk; simp only [Option.map_some, Option.some.injEq] at hk
+      have hx := List.find?_some hf
+      have hxm : x ∈ cs := hsub.subset (List.mem_of_find?_eq_some hf)
+      cases hg : cs.find? (fun c => c.mine && c.key == k) with
+      | none =>
+        have := List.find?_eq_none.1 hg x hxm
+        simp_all
+      | some y =>
+        have hy := List.find?_some hg
+        have hym : y ∈ cs := List.mem_of_find?_eq_some hg
+        simp only [Bool.and_eq_true, beq_iff_eq] at hx hy
+        have := hu y hym x hxm hy.1 hx.1 (by rw [hy.2, hx.2])
+        simp only [Option.map_some, Option.some.injEq]; omega
+  · simp at h
+
+/-- **Re-read = complete when nothing was overwritten** (every change of the version is live and at
+least one row was impacted): the two producers send the same batch. -/
+theorem reread_eq_complete (cs : List Change) : rereadBatch true cs = some (filterChanges cs) := rfl
+
+/-- **No notification at all when the buffered apply impacted no row** (the version lost every merge:
+the rows' current state was notified by whoever produced it). -/
+theorem reread_none_when_not_impacted (live : List Change) : rereadBatch false live = none := rfl
 
 /-! ### every changed key is notified -/
 
@@ -346,6 +403,10 @@ example : ((([(7, 3), (8, 1)] : List Cand).map (·.1)).Nodup) ∧
     stale (stateAfter small init []) (7, 3) = false := by decide
 /-- hypothesis of `suppressed_only_by_newer`: the stale `(7, 2)` is skipped after `(7, 3)` -/
 example : stale (stateAfter small init [.batch [(7, 3), (8, 1)]]) (7, 2) = true := by decide
+/-- the re-read producer: a version `[(5,1),(5,1),(4,2)]` of which only the cells of key 4 are still live -/
+example : rereadBatch true [⟨true, 4, 2⟩] = some [(4, 2)] ∧ rereadBatch false [⟨true, 4, 2⟩] = none ∧
+    UniformCl [⟨true, 5, 1⟩, ⟨true, 5, 1⟩, ⟨true, 4, 2⟩] := by
+  refine ⟨by decide, by decide, ?_⟩; unfold UniformCl; decide
 /-- first causal length per key, other tables ignored -/
 example : filterChanges [⟨true, 5, 1⟩, ⟨false, 6, 1⟩, ⟨true, 5, 2⟩, ⟨true, 4, 2⟩] = [(5, 1), (4, 2)] := by decide
 /-- the sticky `process` flag: after the first flush every batch is flushed at once -/
